@@ -67,23 +67,36 @@ def run(ctx):
             k = stats[rng.below(len(stats))]
             vjobs.append((desc, lines, seqs[k], k))
 
+    rjobs = []
+    # ... and a reprieved entry vanishing between the scan and its re-stamp (ESTALE on the futimens,
+    # which the library reads as "gone"): every OTHER reprieved entry is still moved to the back
+    for desc, lines, impl, model, diffs in res:
+        if impl is None or not impl.steps or desc["mode"] != "prune" or desc["foreign"]:
+            continue
+        can, seqs = T.canon(impl.steps[-1]["events"], with_seq=True)
+        fut = [k for k, t in enumerate(can) if t[0] == "futimens"]
+        if len(fut) >= 2:
+            rjobs.append((desc, lines, seqs[fut[0]], fut[0], "ESTALE"))
+    vjobs = rjobs[: (40 if ctx.quick() else 300)] + vjobs
+
     def vanish(job):
-        desc, lines, seq, k = job
+        desc, lines, seq, k = job[:4]
+        er = job[4] if len(job) > 4 else "ENOENT"
         try:
-            impl = S.run_impl(lines, fault=(seq, "ENOENT"), clock=(MT.BASE, 0))
-            aug = S.augment(lines, impl, fault_by_step={1: (k, "ENOENT")})
+            impl = S.run_impl(lines, fault=(seq, er), clock=(MT.BASE, 0))
+            aug = S.augment(lines, impl, fault_by_step={1: (k, er)})
             model = S.run_model(aug)
             return (dict(desc, vanished=True), lines, impl, model, S.compare(lines, impl, model))
         except Exception as ex:
             return (dict(desc, vanished=True), lines, None, None, ["EXCEPTION " + repr(ex)])
     with cf.ThreadPoolExecutor(16) as ex:
-        vres = list(ex.map(vanish, vjobs[: (60 if ctx.quick() else 600)]))
+        vres = list(ex.map(vanish, vjobs[: (90 if ctx.quick() else 800)]))
     for desc, lines, impl, model, diffs in vres:
         if diffs:
             # the model is the Second Chance oracle here: a disagreement in what is left on disk is a wrong eviction
             snapd = [d for d in diffs if d.startswith("snapshot") or "evicted" in d or "est" in d]
             if snapd:
-                violations.append({"what": "with one entry vanishing during the scan (ENOENT on its stat), maintenance does not leave what Second Chance prescribes: " + "; ".join(snapd[:3]),
+                violations.append({"what": "with one entry vanishing during the scan or the re-stamping (ENOENT on its stat / ESTALE on its futimens), maintenance does not leave what Second Chance prescribes: " + "; ".join(snapd[:3]),
                                    "classification": {"kind": "vanish-overevict"}, "replay": {"kind": "population+fault", "scenario": lines, "diffs": diffs[:6]}})
             else:
                 ties.append({"what": "model and implementation disagree (vanishing entry)", "case": str(desc), "detail": diffs[:4]})
